@@ -1662,4 +1662,240 @@ theorem Uids.startPlain {g : Graph} {s : State} {w : Nat} (u : Uids g s (Ex w)) 
     rw [hsl] at this
     omega
 
+theorem classLen_sameBook {g : Graph} {s s' : State} (h : SameBook s s') (c : Nat) : classLen g s' c = classLen g s c :=
+  sum_map_congr _ _ _ (fun j _ => by rw [h.nd])
+
+/-- whose record is appended when worker `w` (in a test pc) reports: only a test proper reports under a good name -/
+theorem report_name_good {g : Graph} {s : State} {w : Nat} (b : Basic g s All) (hN : NamesInj g) (hP : PreNamesFresh g)
+    {n : Nat} {ph : Phase} {dir : Dir} {uid : String} {tag wait : Nat}
+    (hpc : (s.wd w).pc = .test n ph dir uid tag wait) (i : Nat) (hi : good g i = true)
+    (hnm : (g.node i).name = (if ph = .pre then (s.wd w).preName else (g.node n).name)) : ph = .plain ∧ i = n := by
+  have hok := b.pcOK w n ph dir uid tag wait trivial hpc
+  have hws : w < g.workers.length := by
+    rw [← b.workersLen]; exact lt_of_isTest s w (by rw [hpc]; rfl)
+  have hgi := good_spec hi
+  cases ph with
+  | pre =>
+    simp only [if_true] at hnm
+    rw [hok.2.2.2.2 rfl] at hnm
+    exact absurd hnm (hP i n w hgi.1 hok.1 hws hi)
+  | plain =>
+    simp only [reduceCtorEq, if_false] at hnm
+    exact ⟨rfl, hN i n hgi.1 hok.1 hnm⟩
+  | main =>
+    simp only [reduceCtorEq, if_false] at hnm
+    have : i = n := hN i n hgi.1 hok.1 hnm
+    subst this
+    have := hok.2.2.2.1.mp hgi.2.2.2
+    cases this
+
+/-- the test stub reports the result of the awaited execution -/
+theorem Uids.report {g : Graph} {s sa : State} {w : Nat} (u : Uids g s All) (b : Basic g s All) (hN : NamesInj g)
+    (hP : PreNamesFresh g) {n : Nat} {ph : Phase} {dir : Dir} {uid : String} {tag wait : Nat}
+    (hpc : (s.wd w).pc = .test n ph dir uid tag wait) (hsb : SameBook s sa)
+    (hk : keys sa = keys s ++ [((if ph = .pre then (s.wd w).preName else (g.node n).name), uid)]) : Uids g sa (Ex w) := by
+  have hcl : ∀ c, classLen g sa c = classLen g s c := classLen_sameBook hsb
+  refine ⟨?_, ?_, ?_, ?_, ?_⟩
+  · intro i k hi hkm hnm
+    rw [hk] at hkm
+    rw [hcl]
+    rcases List.mem_append.mp hkm with hkm | hkm
+    · exact u.recorded i k hi hkm hnm
+    · rw [List.mem_singleton.mp hkm] at hnm ⊢
+      obtain ⟨hph, hin⟩ := report_name_good b hN hP hpc i hi hnm.symm
+      subst hph hin
+      exact u.inflight w i dir uid tag wait trivial hpc hi
+  · intro v n' dir' uid' tag' wait' hv hp hg
+    rw [hsb.wd] at hp; rw [hcl]
+    exact u.inflight v n' dir' uid' tag' wait' trivial hp hg
+  · rw [hk, List.filter_append]
+    generalize hnm0 : (if ph = .pre then (s.wd w).preName else (g.node n).name) = nm
+    by_cases hgn : goodName g nm = true
+    · have hf : [(nm, uid)].filter (fun k => goodName g k.1) = [(nm, uid)] := by simp [hgn]
+      rw [hf]
+      obtain ⟨i, hi, hnm⟩ := goodName_spec hgn
+      obtain ⟨hph, hin⟩ := report_name_good b hN hP hpc i hi (hnm.trans hnm0.symm)
+      subst hph hin
+      have := u.unreported w i dir uid tag wait trivial hpc hi
+      refine List.nodup_append.mpr ⟨u.nodup, by simp, ?_⟩
+      intro a ha b' hb' e
+      rw [List.mem_singleton] at hb'
+      rw [e, hb', ← hnm] at ha
+      exact this (List.mem_filter.mp ha).1
+    · have hf : [(nm, uid)].filter (fun k => goodName g k.1) = [] := by simp [hgn]
+      rw [hf, List.append_nil]; exact u.nodup
+  · intro v n' dir' uid' tag' wait' hv hp hg
+    rw [hsb.wd] at hp
+    rw [hk]
+    intro hmem
+    rcases List.mem_append.mp hmem with hmem | hmem
+    · exact u.unreported v n' dir' uid' tag' wait' trivial hp hg hmem
+    · have heq := List.mem_singleton.mp hmem
+      simp only [Prod.mk.injEq] at heq
+      obtain ⟨hph, hin⟩ := report_name_good b hN hP hpc n' hg heq.1
+      subst hph hin
+      exact u.distinct v w n' dir' uid' tag' wait' n' dir uid tag wait trivial trivial hv hp hpc hg
+        (by rw [heq.2])
+  · intro v v' n1 dir1 uid1 tag1 wait1 n2 dir2 uid2 tag2 wait2 hv hv' hvv hp hp' hg
+    rw [hsb.wd] at hp hp'
+    exact u.distinct v v' n1 dir1 uid1 tag1 wait1 n2 dir2 uid2 tag2 wait2 trivial trivial hvv hp hp' hg
+
+theorem Uids.sameKeys {g : Graph} {s s' : State} {L : Nat → Prop} (u : Uids g s L) (h : SameBook s s') (hk : keys s' = keys s) :
+    Uids g s' L :=
+  u.transfer hk (fun v _ _ _ _ _ _ hp => by rw [h.wd] at hp; exact hp) (fun c _ => Nat.le_of_eq (classLen_sameBook h c).symm)
+
+theorem Uids.wait {g : Graph} {s : State} {w : Nat} (u : Uids g s All)
+    {n : Nat} {ph : Phase} {dir : Dir} {uid : String} {tag wait : Nat}
+    (hpc : (s.wd w).pc = .test n ph dir uid tag wait) (hw : w < s.workers.length) (wait' : Nat) :
+    Uids g (s.setWd w (fun d => { d with pc := .test n ph dir uid tag wait' })) All := by
+  have u1 : Uids g (s.setWd w (fun d => { d with pc := .test n ph dir uid tag wait' })) (Ex w) :=
+    (u.mono (fun _ _ => trivial)).transfer rfl
+      (fun v hv _ _ _ _ _ hp => by rw [wd_setWd_ne s w v _ hv] at hp; exact hp) (fun c _ => Nat.le_refl _)
+  refine u1.close (fun n' dir' uid' tag' wait'' hp => ?_)
+  rw [wd_setWd_eq s w _ hw] at hp
+  simp only [Pc.test.injEq] at hp
+  obtain ⟨hn, hph, hdir, huid, htag, _⟩ := hp
+  subst hn hph hdir huid htag
+  refine ⟨fun hg => ⟨u.inflight w n dir uid tag wait trivial hpc hg, u.unreported w n dir uid tag wait trivial hpc hg⟩, ?_⟩
+  intro v n2 dir2 uid2 tag2 wait2 hv hp2 hgg
+  rw [wd_setWd_ne s w v _ hv] at hp2
+  rcases hgg with hg | hg
+  · exact u.distinct w v n dir uid tag wait n2 dir2 uid2 tag2 wait2 trivial trivial (Ne.symm hv) hpc hp2 hg
+  · exact fun e => u.distinct v w n2 dir2 uid2 tag2 wait2 n dir uid tag wait trivial trivial hv hp2 hpc hg e.symm
+
+/-- the result replaces the placeholder: the classes without object roots do not shrink -/
+theorem Uids.settle {g : Graph} {s : State} {w : Nat} (u : Uids g s (Ex w)) (b : Basic g s All)
+    {n : Nat} {ph : Phase} {dir : Dir} {uid : String} {tag wait : Nat}
+    (hpc : (s.wd w).pc = .test n ph dir uid tag wait) (res : Result) (hres : res.tag = 0) :
+    Uids g (settleNd s n res tag) (Ex w) := by
+  have hok := b.pcOK w n ph dir uid tag wait trivial hpc
+  refine u.transfer rfl (fun v _ _ _ _ _ _ hp => hp) (fun c hc => classLen_mono hc (fun j hj => ?_))
+  rcases settleNd_results s n res tag j with h | ⟨_, h⟩
+  · rw [h]; exact Nat.le_refl _
+  · rw [h]
+    have h1 := settle_len (s.nd j).results res tag (isPh_res_false res tag hres hok.2.1)
+    have h2 := b.tagsOnce j tag hj hok.2.1
+    omega
+
+theorem Uids.settlePre {g : Graph} {s : State} {w : Nat} (u : Uids g s (Ex w)) (res : Result) (tag : Nat) :
+    Uids g (settlePre s w res tag) (Ex w) :=
+  u.transfer rfl (fun v hv _ _ _ _ _ hp => by unfold I2N.Trav.settlePre at hp; rw [wd_setWd_ne s w v _ hv] at hp; exact hp)
+    (fun c _ => Nat.le_refl _)
+
+theorem Uids.appendPre {g : Graph} {s : State} {L : Nat → Prop} (u : Uids g s L) (n w : Nat) : Uids g (appendPre s n w) L := by
+  refine u.transfer rfl (fun v _ _ _ _ _ _ hp => hp) (fun c hc => classLen_mono hc (fun j _ => ?_))
+  unfold I2N.Trav.appendPre
+  rcases nd_setNd_cases s n (fun d => { d with results := d.results ++ (s.wd w).preResults.drop d.results.length }) j with h | ⟨_, _, h⟩
+  · rw [h]; exact Nat.le_refl _
+  · rw [h]; simp only [List.length_append]; omega
+
+theorem Uids.startFrom {g : Graph} {s1 s' : State} {w : Nat} (u : Uids g s1 (Ex w)) (b : Basic g s1 (Ex w)) (hN : NamesInj g)
+    (h : StartFrom g w s1 s') (hw : w < g.workers.length) : Uids g s' All := by
+  cases h with
+  | plain n dir s0 evs hn hroot hdec h =>
+    rw [h]
+    exact u.startPlain b hN n dir hn hw
+  | pre n dir hn hroot h =>
+    rw [h]
+    have u0 : Uids g (s1.setWd w (fun d => { d with preResults := (s1.nd n).results, preName := preNameOf g n w })) (Ex w) :=
+      u.transfer rfl (fun v hv _ _ _ _ _ hp => by rw [wd_setWd_ne s1 w v _ hv] at hp; exact hp) (fun c _ => Nat.le_refl _)
+    exact u0.startOther n .pre dir (by decide) (by rw [workers_length_setWd, b.workersLen]; exact hw)
+
+theorem Uids.cont {g : Graph} {sc s' : State} {w n : Nat} {ph : Phase} {dir : Dir} {ok : Bool} (u : Uids g sc (Ex w))
+    (b : Basic g sc (Ex w)) (hN : NamesInj g)
+    (h : ContEff g w n ph dir sc ok s') (hw : w < g.workers.length)
+    (hroot : (g.node n).objectRoot = false ↔ ph = .plain) : Uids g s' All := by
+  rcases h with ⟨hp, _, h⟩ | ⟨_, h⟩
+  · rw [h]
+    exact u.startOther n .main dir (by decide) (by rw [b.workersLen]; exact hw)
+  · have ud : Uids g (if ph = .pre then I2N.Trav.appendPre sc n w else sc) (Ex w) := by
+      split
+      · exact u.appendPre n w
+      · exact u
+    have bd : Basic g (if ph = .pre then I2N.Trav.appendPre sc n w else sc) (Ex w) := by
+      split
+      · rename_i hp
+        rw [hp] at hroot
+        have hr : (g.node n).objectRoot = true := by
+          cases hc : (g.node n).objectRoot
+          · exact absurd (hroot.mp hc) (by decide)
+          · rfl
+        exact b.extendRoot n _ hr
+      · exact b
+    rcases h with ⟨a, hpc⟩ | ⟨s1, a, hs⟩
+    · exact (ud.silent a).closeOther (fun n' dir' uid tag wait hp => by rw [hp] at hpc; simp [Pc.isTest] at hpc)
+    · exact (ud.silent a).startFrom (bd.silent a) hN hs hw
+
+/-- a step in which the awaited result was not found did not report it -/
+theorem repEff_none {s sa : State} {name uid : String} {wait : Nat} {out : Outcome} (hrep : RepEff s name uid wait out sa)
+    (hnone : sa.jobResults.find? (fun r => r.1 == name && r.2.1 == uid) = none) : sa = s := by
+  rcases hrep with h | ⟨_, st, _, _, hj⟩
+  · exact h
+  · exfalso
+    rw [hj] at hnone
+    exact find?_append_singleton_ne_none _ _ _ (by simp) hnone
+
+/-- the identifier invariant is preserved by every step with fuel -/
+theorem Uids.step {g : Graph} (hwf : graphWF g = true) (hN : NamesInj g) (hP : PreNamesFresh g) {s : State}
+    (b : Basic g s All) (u : Uids g s All) (w : Nat) (out : Outcome) (fuel : Nat)
+    (hw : w < g.workers.length) (hf : 0 < fuel) : Uids g (resume g s w out fuel).1 All := by
+  have hws : w < s.workers.length := by rw [b.workersLen]; exact hw
+  rcases resume_eff g hwf s w out fuel hf hws (b.paths w) with ⟨_, h⟩ | ⟨n, ph, dir, uid, tag, wait, hpc, sa, hrep, h⟩
+  · rcases h with ⟨a, _⟩ | ⟨s1, a, hs⟩
+    · exact u.silent a
+    · exact ((u.silent a).mono (fun _ _ => trivial)).startFrom ((b.silent a).mono (fun _ _ => trivial)) hN hs hw
+  · have hsb : SameBook s sa := by
+      rcases hrep with h | ⟨_, _, _, h, _⟩
+      · rw [h]; exact ⟨rfl, rfl, rfl⟩
+      · exact h
+    have ba : Basic g sa All := b.sameBook hsb
+    have hpca : (sa.wd w).pc = .test n ph dir uid tag wait := by rw [hsb.wd]; exact hpc
+    have hok := b.pcOK w n ph dir uid tag wait trivial hpc
+    have ua : Uids g sa (Ex w) := by
+      rcases hrep with h | ⟨_, st, _, hsb', hj⟩
+      · rw [h]; exact u.mono (fun _ _ => trivial)
+      · exact u.report b hN hP hpc hsb' (by unfold keys; rw [hj]; simp)
+    rcases h with ⟨e, _, sb, res, ok, hsab, hkeys, hres, hc⟩ | ⟨hnone, h | hc⟩
+    · have bb : Basic g sb All := ba.sameBook hsab
+      have ub : Uids g sb (Ex w) := ua.sameKeys hsab hkeys
+      have hpcb : (sb.wd w).pc = .test n ph dir uid tag wait := by rw [hsab.wd]; exact hpca
+      refine Uids.cont (sc := if ph = .pre then I2N.Trav.settlePre sb w res tag else settleNd sb n res tag) ?_ ?_ hN hc hw hok.2.2.2.1
+      · split
+        · exact ub.settlePre res tag
+        · exact ub.settle bb hpcb res hres
+      · split
+        · exact bb.settlePre res tag
+        · exact bb.settle hpcb res hres
+    · have hsa := repEff_none hrep hnone
+      subst hsa
+      rw [h]
+      exact u.wait hpc hws (wait + 1)
+    · have hsa := repEff_none hrep hnone
+      subst hsa
+      exact (u.mono (fun _ _ => trivial)).cont (b.mono (fun _ _ => trivial)) hN hc hw hok.2.2.2.1
+
+theorem Uids.init (g : Graph) (ncls : Nat) (store : List (String × List (String × String))) :
+    Uids g (initState g ncls store) All := by
+  have hwd : ∀ v, ((initState g ncls store).wd v).pc.isTest = false := by
+    intro v
+    unfold initState State.wd
+    simp only [List.getD_eq_getElem?_getD, List.getElem?_map]
+    cases g.workers[v]? <;> rfl
+  have hnt : ∀ v n ph dir uid tag wait, ((initState g ncls store).wd v).pc ≠ .test n ph dir uid tag wait := by
+    intro v n ph dir uid tag wait h
+    have := hwd v; rw [h] at this; simp [Pc.isTest] at this
+  have hk : keys (initState g ncls store) = [] := rfl
+  refine ⟨?_, ?_, ?_, ?_, ?_⟩
+  · intro i k _ hkm; rw [hk] at hkm; simp at hkm
+  · intro v n dir uid tag wait _ h; exact absurd h (hnt _ _ _ _ _ _ _)
+  · rw [hk]; simp
+  · intro v n dir uid tag wait _ h; exact absurd h (hnt _ _ _ _ _ _ _)
+  · intro v v' n dir uid tag wait n' dir' uid' tag' wait' _ _ _ h; exact absurd h (hnt _ _ _ _ _ _ _)
+
+theorem ReachableR.uids {g : Graph} (hwf : graphWF g = true) (hN : NamesInj g) (hP : PreNamesFresh g) {ncls : Nat}
+    {store : List (String × List (String × String))} {s : State} (h : ReachableR g ncls store s) : Uids g s All := by
+  induction h with
+  | init => exact Uids.init g ncls store
+  | step w out fuel hr hw hf ih => exact ih.step hwf hN hP (hr.basic hwf) w out fuel hw hf
+
 end I2N.Trav
